@@ -350,6 +350,17 @@ func genAV1Rt(x *Ctx) {
 			})
 		}
 	}
+	// a length-prefixed first element around the LEB128 boundaries 128 and 16384, packet nearly full
+	for _, L := range []int{125, 126, 127, 128, 129, 130, 131, 16382, 16383, 16384, 16385, 16386} {
+		for d := -2; d <= 6; d++ {
+			x.Case(func(c *Case) {
+				first := av1Obu{typ: 6, hasSize: true, payload: c.R.Bytes(L - 1)}
+				second := av1Obu{typ: 6, hasSize: c.R.Bool(), payload: c.R.Bytes(c.R.Range(0, 3))}
+				c.Tag("grid-leb-boundary")
+				av1RtCase(c, L+d, []av1Obu{first, second})
+			})
+		}
+	}
 	// many tiny OBUs in one W = 0 packet (the deprecated parser compares its element counter as a byte)
 	for _, k := range []int{200, 254, 255, 256, 257, 300, 520} {
 		for _, mtu := range []int{1200, 65535} {
@@ -863,6 +874,19 @@ func genAV1C08(x *Ctx) {
 		x.Case(func(c *Case) {
 			run(c, []PayCall{{uint16(mtu), cloneBytes(seeds[8])}, {uint16(mtu), cloneBytes(seeds[10])}, {uint16(mtu), cloneBytes(seeds[8])}})
 		})
+	}
+	// a length-prefixed first element around the LEB128 boundaries 128 and 16384, packet nearly full:
+	// OBU of total length L followed by a small one, MTU = L + d
+	for _, L := range []int{120, 125, 126, 127, 128, 129, 130, 131, 16381, 16382, 16383, 16384, 16385, 16386, 16387} {
+		for d := -2; d <= 6; d++ {
+			x.Case(func(c *Case) {
+				mtu := L + d
+				first := av1Obu{typ: 6, hasSize: true, payload: c.R.Bytes(L - 1)}
+				second := av1Obu{typ: 6, hasSize: c.R.Bool(), payload: c.R.Bytes(c.R.Range(0, 3))}
+				c.Tag("leb-boundary")
+				run(c, []PayCall{{uint16(mtu), av1Serialise([]av1Obu{first, second})}})
+			})
+		}
 	}
 	for i, n := 0, x.N(9000, 500000); i < n; i++ {
 		x.Case(func(c *Case) {
